@@ -1969,9 +1969,11 @@ class UserSpaceImpl(*_user_space_impl_base):
                             refmode=refmode,
                             set_item=False)
         self._own_refs.set_item(name, ref)
+        self.clear_subs_rootitems()     # ItemSpaces hold copies of the refs
         return ref
 
     def on_del_ref(self, name):
+        self.clear_subs_rootitems()
         self.own_refs[name].on_delete()
         self.own_refs.del_item(name)
 
